@@ -3,7 +3,7 @@
 Contract file format (contracts/<unit>.spec), line oriented:
 
   @unit NAME
-  @preamble verus/NAME_pre.rs            hand-written spec fns / stand-in types / lemmas
+  @preamble verus/NAME_pre.rs [more.rs ..] hand-written spec fns / stand-in types / lemmas (first file opens verus!{)
   @source src/compiler/builder.rs        switches the current source file
   @item struct|enum|type|const NAME      copy the item verbatim (D1/D2 applied)
   @impl TYPE [TRAIT]                     open an impl block; following @fn belong to it
@@ -90,7 +90,7 @@ def parse_spec(path):
             if d == '@unit':
                 unit['name'] = parts[1]
             elif d == '@preamble':
-                unit['preamble'] = parts[1]
+                unit['preamble'] = parts[1:]     # first file opens `verus! {`; further files are appended inside it
             elif d == '@source':
                 cur_source = parts[1]
             elif d == '@item':
@@ -232,6 +232,7 @@ class Generated:
         self.obl_lines = {}        # generated line -> obligation name
         self.obligations = []      # all named obligations (incl. per-fn safety)
         self.assumed = []          # obligations assumed (external fns)
+        self.contract_text = {}    # qual -> {'requires': [text], 'ensures': {label: text}}
         self.edit_stats = {}
         self.inserted_check = True
         self.items = []
@@ -241,7 +242,8 @@ def generate(unit, repo, vacuity_fn=None):
     """Build the Verus file text for `unit` from the working tree under `repo`.
     vacuity_fn: qualified fn name that gets `assert(false);` at body start (vacuity probe)."""
     g = Generated()
-    stats = {k: 0 for k in ('D1', 'D2', 'A1', 'A2', 'A3', 'A4', 'R1', 'R2', 'R3', 'R4', 'R5', 'R6', 'R7', 'R8', 'R9', 'R10', 'X1')}
+    g.unit_name = unit['name']
+    stats = {k: 0 for k in ('D1', 'D2', 'A1', 'A2', 'A3', 'A4', 'R1', 'R2', 'R3', 'R4', 'R5', 'R6', 'R7', 'R8', 'R9', 'R10', 'R11', 'X1')}
     sources = {}
 
     def src_of(rel):
@@ -250,8 +252,10 @@ def generate(unit, repo, vacuity_fn=None):
         return sources[rel]
 
     chunks = []      # (text, origin_pieces|None, source_rel)
-    with open(os.path.join(VERIF, unit['preamble'])) as f:
-        preamble_text = f.read()
+    preamble_text = ''
+    for pf in unit['preamble']:
+        with open(os.path.join(VERIF, pf)) as f:
+            preamble_text += f.read().rstrip('\n') + '\n\n'
     chunks.append((preamble_text, None, None, None))
 
     def emit_item(src, rel, item, keep_derive):
@@ -463,6 +467,9 @@ def generate(unit, repo, vacuity_fn=None):
                 names.append('%s/%s/loop%d/invariant#%s' % (pre, f['qual'], n, c.label))
             for c in lp['decreases']:
                 names.append('%s/%s/loop%d/decreases#%s' % (pre, f['qual'], n, c.label))
+        # contract text per function (used to link an assumed callee contract to the unit that proves it)
+        g.contract_text[f['qual']] = {'requires': sorted(c.text for c in fs.requires),
+                                      'ensures': {c.label: c.text for c in fs.ensures}}
         if f['external']:
             g.assumed.extend(names)
         else:
